@@ -7,6 +7,7 @@ mod cli;
 mod core;
 mod e2;
 mod engine;
+mod fakeai;
 mod librun;
 mod props;
 
